@@ -928,6 +928,59 @@ def search(ctx, np, util, config, sf_actual, icases=()):
                         st.close()
                     except Exception:  # noqa: BLE001
                         pass
+    # the record starts where the stream stands, not at byte 0: a record behind a preamble the caller has already consumed,
+    # consecutive records in one stream (np.save several arrays into one file, read them back one after the other)
+    for cont, fa_ok in (("npy", "npy"), ("wav", "wav"), ("sph", "sph"), ("sph8", "sph")):
+        payload, want = pay[cont]
+        for pre_len in (1, 8, 44, 1024):
+            st = io.BytesIO(bytes((7 * k) % 251 for k in range(pre_len)) + payload)
+            st.seek(pre_len)
+            ctx.count("search:stream-positioned")
+            try:
+                got = util.read_signal(st, force_as=fa_ok)
+                if not same(got, want):
+                    bad.append(("roundtrip", dict(container=cont, access="BytesIO positioned at byte %d (record behind a preamble)" % pre_len, force_as=fa_ok,
+                                                  got=str(got)[:80], got_dtype=str(getattr(got, "dtype", None)), want=str(want)[:80])))
+            except Exception as e:  # noqa: BLE001
+                bad.append(("roundtrip-raised", dict(container=cont, access="BytesIO positioned at byte %d (record behind a preamble)" % pre_len, force_as=fa_ok,
+                                                     error="%s: %s" % (type(e).__name__, str(e)[:100]))))
+    recs = [np.arange(6, dtype=np.float32).reshape(2, 3), (np.arange(50) * 3 - 70).astype(np.int16), np.linspace(0, 1, 8).reshape(2, 2, 2)]
+    st = io.BytesIO()
+    for a in recs:
+        np.save(st, a)
+    st.seek(0)
+    for k, a in enumerate(recs):
+        ctx.count("search:stream-consecutive-records")
+        try:
+            got = util.read_signal(st, force_as="npy")
+            if not same(got, a):
+                bad.append(("roundtrip", dict(container="npy", access="record #%d of %d consecutive np.save records in one stream" % (k + 1, len(recs)), force_as="npy",
+                                              got=str(got)[:80], got_dtype=str(getattr(got, "dtype", None)), want=str(a)[:80], want_dtype=str(a.dtype))))
+                break
+        except Exception as e:  # noqa: BLE001
+            bad.append(("roundtrip-raised", dict(container="npy", access="record #%d of consecutive np.save records" % (k + 1), force_as="npy",
+                                                 error="%s: %s" % (type(e).__name__, str(e)[:100]))))
+            break
+    # a PyTorch file in the legacy (non-zip) layout, as torch < 1.6 wrote it: by name and from a stream
+    try:
+        lp = os.path.join(FILES, "legacy_layout.pt")
+        torch.save(torch.from_numpy(a16.copy()), lp, _use_new_zipfile_serialization=False)
+    except Exception:  # noqa: BLE001 - this torch cannot write the layout any more: nothing to read
+        lp = None
+    if lp is not None:
+        for access in ("path", "stream"):
+            ctx.count("search:pt-legacy-layout")
+            try:
+                if access == "path":
+                    got = util.read_signal(lp)
+                else:
+                    with open(lp, "rb") as f:
+                        got = util.read_signal(f, force_as="pt")
+                if not same(got, a16):
+                    bad.append(("roundtrip", dict(container="pt (legacy non-zip layout)", access=access, got=str(got)[:80], got_dtype=str(getattr(got, "dtype", None)))))
+            except Exception as e:  # noqa: BLE001
+                bad.append(("roundtrip-raised", dict(container="pt (legacy non-zip layout)", access=access, error="%s: %s" % (type(e).__name__, str(e)[:100]))))
+        os.remove(lp)
     for fa in ["foo", "", "WAV", "numpy", "mp3", "Npy"]:
         ctx.count("search:errors")
         try:
